@@ -38,6 +38,18 @@ CHECKS['C02'] = dict(
     note='Reference = segment semantics written from the statement; don\'t-care regions listed in the evidence '
          'assumptions; CPython re._parser trusted and bound by per-state replay.')
 
+CHECKS['C03'] = dict(
+    level='model_checking', engine='AUT', design='6 C03',
+    technique='explicit-state exploration of the product automaton (executed regex x two languages derived from the '
+              'labelled reference NFA by a per-segment run filter x tracker); emptiness / inclusion decided on every '
+              'reachable state',
+    text='For every generated fnmatch- and path-mode pattern (including dot-free ones) x flag sets over DOTGLOB, '
+         'NODOTDIR, GLOBSTAR, MATCHBASE, the pathlib-match prefix and EXTGLOB: no accepted hidden/special name lacks '
+         'an accepting run that consumes each leading dot with a written dot (exact emptiness for dot-free patterns), '
+         'first-token written dots are granted, exclusion patterns equal the DOTGLOB inclusion language.',
+    note='Three-valued reference (must-reject / must-accept / don\'t-care) deliberately weaker than or equal to the '
+         'statement; glob()/WcMatch halves on real trees are explored by the FSX checks (C05, C14).')
+
 PENDING = {}
 
 
